@@ -35,6 +35,21 @@ CLAIMED = {
    text="C18_ne_is_not_eq, C18_le_is_lt_or_eq, C18_ge_is_gt_or_eq, C18_at_most_one (all values); C18_eq_symmetric and C18_lt_is_gt_swapped for values whose objects do not repeat a key; by value: C18_integers_exact (whole Z range of the model, int64/uint64 mix), C18_strings_by_bytes, C18_raw_by_bytes, C18_null_equals_only_null, C18_nan_equals_nothing. C18_symmetry_needs_distinct_keys is the checked refutation of the unrestricted statement (known finding). The library is run on ~12-160k ordered pairs (integers across int32/int64/uint64 boundaries, floats incl. NaN/inf/-0/2^53 neighbours, strings with NUL and high bytes, raw, nested containers, unbound) with the coherence laws and a by-value oracle.",
    note=NOTE_COMMON + "No axioms. Known finding: duplicate-key objects (from deserializeMsgPack) compare asymmetrically. Booleans against numbers follow the code (true == 1).",
    design="§6 C18"),
+ "C11": dict(
+   technique="Coq proof that the filtered reader yields project(filter, unfiltered value) for every grammar text and every filter (mutual induction; skip-path completeness; filter `true` identity on all inputs) + differential run with an independent projection oracle, JSON and MessagePack, allocator totals",
+   text="C11_filtering_is_projection (every RFC 8259 text within limits, EVERY filter document incl. scalars, wildcards beside explicit entries, shapes disagreeing with the input, repeated keys), C11_true_is_identity (on every input, malformed included: same code, document and bytes consumed), C11_discarded_values_are_skipped. The library is run on (input, filter) pairs for JSON and MessagePack; its filtered result must equal the projection (independent Python function written from the property text) of its own unfiltered result; filter true vs no filter on malformed inputs; with an instrumented allocator the filtered run must not request more memory than the unfiltered one on accepted inputs, must not leak or misuse blocks.",
+   note=NOTE_COMMON + "No axioms. The MessagePack filter path is tied by correspondence + oracle only. The clause 'for any input whatsoever filtering never requests more memory' is checked for inputs the unfiltered run accepts: for a malformed input whose error lies in a discarded part the filtered run legitimately goes further (the property's own parenthesis); numbers equal to 1 used as filters act like true in the code.",
+   design="§6 C11"),
+ "C12": dict(
+   technique="Coq proofs for the integer half and the structural float half (no table overrun for any string, classification of extremes); the numeric error bounds are NOT proved: bit-exact differential run of the SpecFloat model vs C++ + exact-rational oracle",
+   text="Proved: C12_integer_literals_exact (any leading zeros, whole [-2^63,2^64) range), C12_integers_print_and_read_back, C12_integers_digit_exact, C12_no_table_overrun (every byte string), C12_result_shapes / C12_zero_stays_zero / C12_huge_is_infinity / C12_tiny_is_zero (never inf for zero, signed infinity above the range, signed zero below), C12_source_agrees (tables and constants from the source). Partial: the error bounds 1e-6/1e-13 (parsing) and 1e-6/1e-9 (printing) are not theorems; the model of parseNumber and writeFloat (Coq SpecFloat arithmetic) is compared bit-for-bit with the library on every run and the library's results are checked against the bounds with exact rational arithmetic on literals aimed at every decision boundary, strings of up to 60000 digits, doubles over all exponents and (thorough) 400k floats.",
+   note=NOTE_COMMON + "No axioms. Known finding: a double that is exactly representable as a float is stored as a float and printed with 6 decimals. exponent_offset is an `int` in the code and unbounded in the model (a literal would need 2^31 digits to wrap it).",
+   design="§6 C12"),
+ "C13": dict(
+   technique="Coq proofs about the conversion model (range tests, float->int cast defined whenever evaluated, truncation when the rational value is in range) + differential run over boundary values x 10 target types with an exact-rational oracle under UBSan",
+   text="C13_int_to_int, C13_is_then_as, C13_wider_agrees, C13_float_cast_defined (the cast is evaluated only when representable: no float-cast-overflow UB, float and double sources, 8 targets), C13_stored_values_valid, C13_float_in_range_truncates (value within the range of T as a rational => converted, result = truncation toward zero), C13_result_in_range, C13_nan_is_zero, C13_strings_any_length, C13_source_agrees (highest_for constants). The library is run on integers/floats/doubles within 2 of every power of two and type limit, special values, random values and numeric strings up to 40000 digits (copied and linked) against Python exact arithmetic.",
+   note=NOTE_COMMON + "No axioms (QArith only). as<float>/as<double> rounding is tied by correspondence (SpecFloat binary_normalize) and the oracle, not by a theorem; copyArray bounds are not modelled.",
+   design="§6 C13"),
  "C15": dict(
    technique="Coq proofs by induction on the nesting budget (the model is structurally recursive on it) + differential run on towers for all limits + oracle on TooDeep position",
    text="C15_ok_nesting (Ok => nesting <= L, any input/filter/config), C15_limit_only_causes_TooDeep(+_skip) (a run not ending in TooDeep is unchanged under any larger limit: the limit has no other effect), C15_tower_refused(+_in_skipped_part) (the (L+1)-th opener is refused when met, nothing after it is read), C15_within_limit_accepted. Recursion depth <= L+1 is the structural recursion of the definition itself. Towers of [ {\"a\": 0x91 0x81 array16/32 map16/32, kept and filter-discarded, up to 10^4 openers, are run on the library for many L.",
